@@ -444,7 +444,7 @@ def install(spec: Spec):
         ex.oblige('callsite:step/requires', 'not_after_cancel', z3.BoolVal(not ex.st.flags.get('cancelled')), ['C16'])
         # C06: the run loop is the root of its own task tree: it must not believe it already holds the global lock,
         # nor that it is inside somebody's handler (A2: a new task copies the creator's context)
-        ex.oblige('callsite:step/requires', 'root_context', ex.spec_bool("not ctx('holds_global_lock') and not ctx('inside_handler') and ctx('current_event') is None and ctx('current_handler_id') is None", dict(ex.st.env)), ['C06', 'C09'])
+        ex.oblige('callsite:step/requires', 'root_context', ex.spec_bool("not ctx('holds_global_lock') and not ctx('inside_handler') and ctx('current_event') is None and ctx('current_handler_id') is None", dict(ex.st.env)), ['C06', 'C09', 'C02'])
 
     def runloop_exit(ex, outcome, result, exc):
         # C11: an Exception escaping step() (other than queue shutdown / loop closing) must not end the run loop
